@@ -40,7 +40,8 @@ type Case struct {
 	ReceivedAt  string   `json:"received_at"`         // acs | other | acsquery
 	Entry       string   `json:"entry"`               // xml | post | artifact
 	Encrypted   bool     `json:"encrypted,omitempty"`
-	Methods     []string `json:"methods,omitempty"` // per confirmation: "" = bearer | hok | sv
+	Methods     []string `json:"methods,omitempty"`             // per confirmation: "" = bearer | hok | sv
+	AllowIDP    bool     `json:"allow_idp_initiated,omitempty"` // addressing must hold whether or not IdP-initiated login is allowed
 }
 
 func methodURI(m string) string {
@@ -163,7 +164,7 @@ func check(c Case) pbt.Result {
 	if err != nil {
 		return pbt.Result{Err: "harness: " + err.Error()}
 	}
-	sp := spkit.NewSP(spkit.Config{Trust: "meta1", NoEntityID: c.NoEntityID})
+	sp := spkit.NewSP(spkit.Config{Trust: "meta1", NoEntityID: c.NoEntityID, AllowIDPInit: c.AllowIDP})
 	switch c.Validator {
 	case "accept":
 		sp.ValidateAudienceRestriction = func(*saml.Assertion) error { return nil }
@@ -362,6 +363,7 @@ func gen(t *rapid.T) Case {
 		ReceivedAt:  rapid.SampledFrom([]string{"acs", "acs", "other", "acsquery"}).Draw(t, "at"),
 		Entry:       rapid.SampledFrom([]string{"xml", "post", "artifact"}).Draw(t, "entry"),
 		Encrypted:   rapid.IntRange(0, 4).Draw(t, "enc") == 0,
+		AllowIDP:    rapid.IntRange(0, 3).Draw(t, "allowidp") == 0,
 	}
 	if c.ReceivedAt != "acs" && c.Destination.Class == "correct" {
 		c.DestIsAt = rapid.Bool().Draw(t, "destIsAt")
@@ -432,6 +434,7 @@ func enumSingleFault(_ string, emit func(Case)) {
 					for _, f := range fields {
 						c := base()
 						c.Entry, c.RespSigned, c.NoEntityID = entry, rs, noEnt
+						c.AllowIDP = rs != noEnt // half of the grid with IdP-initiated login allowed
 						switch slot {
 						case 0:
 							c.RespIssuer = f
